@@ -23,11 +23,11 @@ MANIFEST = {
             'machine in the statement order of Runtime.shutdown: shutdown_closes_after_quiescence (no connection is '
             'closed by p before a poll saw p\'s _pc_level <= depth and p received every other party\'s shutdown message), '
             'quiesced_was_polled, every_connection_has_a_closer. Tied to the source by generated obligations all_balanced '
-            '(each of the five exit paths of typed_asyncoro/_reconcile decrements exactly once) and shutdown_order_ok (statement '
+            '(each of the five exit paths of typed_asyncoro/_reconcile decrements exactly once; the increment is the first statement for all three declaration forms, the task tail is straight-line with the decrement only in the done-callback _reconcile - its first statement, also for exceptions and for coroutines without return value -, and _ProgramCounterWrapper restores the counter in a finally) and shutdown_order_ok (statement '
             'order of shutdown; unset_protocol resolves the awaited future iff ALL peers other than self are deregistered), and '
             'to runs by the simulator: task completion at barrier return and at every close, full _pc_level assignment '
             'log replayed through the Coq counter model, shutdown completion, all connections of a party closed at the instant '
-            'its shutdown returns, no exception inside connection callbacks, also with closes of lower-numbered peers arriving late.',
+            'its shutdown returns, no exception inside connection callbacks, also with closes of lower-numbered peers arriving late; user coroutines of every declaration form (returnType(type), returnType(None), annotation, -> None) and one raising after its first await, pending behind a lagging party at barrier()/shutdown(); at every statement boundary of the main program depth = 0 and _pc_level = tasks created - tasks completed.',
     'note': 'Safety only: shutdown_terminates (liveness under fair delivery) is NOT proved, termination of shutdown is '
             'checked on the explored schedules. BaseException subclasses escaping a first segment (CancelledError, '
             'KeyboardInterrupt) are outside the model (the handlers are `except Exception`). Barriers inside coroutines '
@@ -86,6 +86,7 @@ def run(ctx):
     ctx.extra['pc_level_paths'] = info['pc_level_paths']
     ctx.extra['shutdown_order'] = info['shutdown_order']
     ctx.extra['unset_condition'] = info['unset_condition']
+    ctx.extra['completion_shape'] = info['completion_shape']
     if bal_ok:
         ctx.discharged += 2
         ctx.theorems.append(('all_balanced, shutdown_order_ok (gen/CoroBalanced.v)',
@@ -93,10 +94,10 @@ def run(ctx):
     else:
         ctx.log('generated obligation FAILED:\n%s' % info['compiled'].get('CoroBalanced.v', ('', 'table did not compile'))[1][-600:])
         ctx.broken.append({'kind': 'proof', 'file': 'gen/CoroBalanced.v', 'paths': info['pc_level_paths'],
-                           'shutdown_order': info['shutdown_order'], 'unset_condition': info['unset_condition'],
+                           'shutdown_order': info['shutdown_order'], 'unset_condition': info['unset_condition'], 'completion_shape': info['completion_shape'],
                            'detail': info['compiled'].get('CoroBalanced.v', ('', ''))[1][-600:]})
     ctx.log('pc_level exit paths: %s; shutdown order: %s; obligations %s' % (
-        [(p[0], p[1], p[2]) for p in info['pc_level_paths']], info['shutdown_order'] + [info['unset_condition']], 'hold' if bal_ok else 'FAIL'))
+        [(p[0], p[1], p[2]) for p in info['pc_level_paths']], info['shutdown_order'] + [info['unset_condition']] + info['completion_shape'], 'hold' if bal_ok else 'FAIL'))
 
     stats = collections.Counter()
     exprs, meta = [], []
@@ -119,15 +120,34 @@ def run(ctx):
             if ctx.tier != 'thorough':
                 late = [x for x in late if x[0].startswith('hold:')] + rng.sample([x for x in late if not x[0].startswith('hold:')], 2)
             pols += [(pn, pf, ('late',)) for pn, pf in late]
+        # user coroutines of every declaration form (incl. no return value) and one that raises after its first await,
+        # left pending behind a lagging party when barrier() / shutdown() is reached
+        uc_progs = [base.gen_spec(rng, m, ctx.n(24, 36), with_barrier=True, with_ucoro=True) for _ in range(2)]
+        for sp, _ in uc_progs:
+            n0 = base.nvars(sp)
+            tail = [['ucoro', 'none', 0], ['ucoro', 'annot_none', 1 % m], ['ucoro', 'raise', 0], ['ucoro', 'type', 0], ['barrier'],
+                    ['ucoro', 'none', n0], ['add', n0, 0], ['barrier']]
+            sp['ops'][-1:-1] = tail            # before the final output_all
+        for sp, wn in uc_progs:
+            wn[-1] = list(wn[-1]) + [wn[-1][0] ** 2, wn[-1][0] ** 2 + wn[-1][0]]
+        base.add_unawaited_chain(uc_progs[-1][0])
+        uc_progs[-1][0]['ops'] += [['ucoro', 'none', 0], ['ucoro', 'raise', 1 % m], ['ucoro', 'annot_none', 0]]
+        for lagp in sorted({0, m - 1, rng.randrange(m)}):
+            pols.append(('lag:%d:25' % lagp, base.lagging(m, lagp, 25), ('ucoro',)))
+        pols.append(('fifo', pols[0][1], ('ucoro',)))
+        pols.append(('random:%d' % ci, pols[1][1], ('ucoro',)))
         all_progs = progs
         for pn, pf, extra in pols:
             if time.time() - t0 > budget * (ci + 1) / len(base.CONFIGS) and not extra:
                 ctx.notes.append('time budget: skipped %s for (%d,%d)' % (pn, m, t))
                 continue
-            progs = all_progs[-1:] if extra == ('late',) else (nb_progs if extra else all_progs)
+            progs = all_progs[-1:] if extra == ('late',) else uc_progs if extra == ('ucoro',) else (nb_progs if extra else all_progs)
             if extra == ('late',):
                 extra = ()
                 stats['late_close_sessions'] += 1
+            if extra == ('ucoro',):
+                extra = ()
+                stats['user_coroutine_sessions'] += 1
             sess = base.Session(m, t, ctx.seed + 7, extra=extra, start_policy=pf())
             try:
                 ll = LevelLog(sess)
@@ -149,6 +169,14 @@ def run(ctx):
                                        'pending_tasks': [sess.mon.pending_tasks(i) for i in range(m)]})
                         failed = True
                         break
+                    for i in range(m):
+                        if sess.mon.stmt_bad[i]:
+                            ctx.violation('at a statement boundary of the main program the program counter is not the base '
+                                          'counter at depth 0, or _pc_level differs from the number of unfinished coroutine tasks',
+                                          {'case': key, 'party': i, 'first': sess.mon.stmt_bad[i][:3]})
+                            del sess.mon.stmt_bad[i][:]
+                    nraise = sum(1 for o in spec['ops'] if o[:2] == ['ucoro', 'raise'])
+                    stats['raising_coroutines'] += nraise * m
                     for i in range(m):
                         for pre, pend in blog[i]:
                             stats['barriers_with_pending_tasks'] += 1 if pre else 0
@@ -201,9 +229,17 @@ def run(ctx):
                                           '(incl. its shutdown message)',
                                           {'case': key0, 'close': [src, dst], 'peer': q,
                                            'delivered_at_close': delivered.get((q, src), 0), 'sent_in_total': final_len.get((q, src), 0)})
+                nr = sum(1 for sp, _ in progs for o in sp['ops'] if o[:2] == ['ucoro', 'raise'])
                 for i in range(m):
                     if sess.mon.pending_tasks(i):
                         ctx.violation('coroutine tasks pending after shutdown', {'case': key0, 'party': i})
+                    if sess.mon.expected_failures(i) != nr:
+                        ctx.violation('a coroutine that raises after its first await did not end with that exception',
+                                      {'case': key0, 'party': i, 'failed_tasks': sess.mon.expected_failures(i), 'raising_calls': nr})
+                    if sim.mpcs[i]._pc_level != 0 or sim.mpcs[i]._program_counter[1] != 0:
+                        ctx.violation('_pc_level / depth not 0 after shutdown', {'case': key0, 'party': i,
+                                      'level': sim.mpcs[i]._pc_level, 'depth': sim.mpcs[i]._program_counter[1]})
+                stats['statement_boundaries_checked'] = sess.mon.stmt_checked + stats.get('statement_boundaries_checked', 0)
                 stats['sessions'] += 1
             finally:
                 sess.close()
